@@ -17,8 +17,8 @@ FUNCTIONS = [('hio.base.hier.durqing', 'Durq.' + n) for n in ('push', 'pull', 'e
              ('hio.base.during', 'DomSuberBase._des'), ('hio.base.during', 'Duror.addIoVal'), ('hio.base.during', 'Duror.putIoVals'), ('hio.base.during', 'Duror.popIoVal'),
              ('hio.base.during', 'Duror.remIoVals'), ('hio.base.during', 'Duror.pinIoVals'), ('hio.base.during', 'Duror.addIoSetVal'), ('hio.base.during', 'Duror.putIoSetVals'),
              ('hio.base.during', 'Duror.remIoSetVal'), ('hio.base.during', 'Duror.getIoValsIter')]
-BOUNDS = {'quick': dict(nops=4, budget_s=200, audit_max=4), 'thorough': dict(nops=5, budget_s=2400, audit_max=12)}
-OUTSIDE = ['more operations than the bound', 'more than one reopen per sequence in the quick tier (any subset of points in thorough)', 'values other than three small registered dataclasses',
+BOUNDS = {'quick': dict(nops=4, budget_s=200, audit_max=4), 'thorough': dict(nops=4, budget_s=2400, audit_max=12)}
+OUTSIDE = ['more operations than the bound', 'more than one reopen per sequence in the quick tier (any subset of the four points in thorough)', 'values other than three small registered dataclasses',
            'two queues under related keys (key interference is C24)', 'crash in the middle of an operation (a closed store is always a consistent LMDB snapshot)']
 STUBS = ['FakeLMDB in the symbolic run only; Subery state constructed directly (no directory handling)']
 ASSUMPTIONS = ['the store is closed only between operations']
